@@ -268,7 +268,27 @@ class _NInIntervals:
     def must(P, tis, kind="exact", n=1, nints=1, **kw):
         inside = [Or([And(t.s >= lo, t.e <= hi) for lo, hi in _intervals(P, nints)]) for t in tis]
         total = Sum([b2i(And(t.sched, i)) for t, i in zip(tis, inside)])
-        return [("count", _count(kind, total, n))]
+        cl = [("count", _count(kind, total, n))]
+        # a scheduled task never partly overlaps a listed interval (positive-length tasks)
+        for ti_, t in enumerate(tis):
+            for ii_, (lo, hi) in enumerate(_intervals(P, nints)):
+                cl.append((f"no_partial_overlap_{ti_}_{ii_}",
+                           Implies(And(t.sched, t.e > t.s), Or(And(t.s >= lo, t.e <= hi), t.e <= lo, t.s >= hi))))
+        return cl
+
+    @staticmethod
+    def valid(P, tis, kind="exact", n=1, nints=1, **kw):
+        """valid beyond dispute: the count relation holds and every task is entirely inside or entirely
+        outside each interval (zero-length tasks sitting on a bound are the ambiguous region)"""
+        ints = _intervals(P, nints)
+        inside = [Or([And(t.s >= lo, t.e <= hi) for lo, hi in ints]) for t in tis]
+        total = Sum([b2i(And(t.sched, i)) for t, i in zip(tis, inside)])
+        cl = [_count(kind, total, n)]
+        for t in tis:
+            for lo, hi in ints:
+                cl.append(Or(And(t.s >= lo, t.e <= hi, Not(And(t.s == t.e, Or(t.s == lo, t.s == hi)))), t.e < lo, t.s > hi,
+                             And(t.e <= lo, t.e > t.s), And(t.s >= hi, t.e > t.s)))
+        return And(cl)
 
     @staticmethod
     def assume(P, nints=1, **kw):
@@ -282,11 +302,11 @@ class _NInIntervals:
 
 
 ELEMENTS["ScheduleNTasksInTimeIntervals"] = Element(
-    "ScheduleNTasksInTimeIntervals", 2, _NInIntervals.build, _NInIntervals.must, None,
+    "ScheduleNTasksInTimeIntervals", 2, _NInIntervals.build, _NInIntervals.must, _NInIntervals.valid,
     _n_in_intervals_variants(2, 1) + [dict(kind=k, n=1, nints=2) for k in ("min", "max", "exact")])
 ELEMENTS["ScheduleNTasksInTimeIntervals"].assume = _NInIntervals.assume
 ELEMENTS["ScheduleNTasksInTimeIntervals3"] = Element(
-    "ScheduleNTasksInTimeIntervals3", 3, _NInIntervals.build, _NInIntervals.must, None,
+    "ScheduleNTasksInTimeIntervals3", 3, _NInIntervals.build, _NInIntervals.must, _NInIntervals.valid,
     [dict(kind=k, n=n, nints=2) for k in ("min", "max", "exact") for n in (1, 2)])
 ELEMENTS["ScheduleNTasksInTimeIntervals3"].assume = _NInIntervals.assume
 for _n in ("ScheduleNTasksInTimeIntervals", "ScheduleNTasksInTimeIntervals3"):
